@@ -167,3 +167,32 @@ Proof.
     + apply IH in H; auto.
     + apply IH in H; auto.
 Qed.
+
+(* base cost: what a plain transfer pays per byte, and the range of the embedded method costs *)
+Lemma base_plasma_transfer len b :
+  0 <= len -> base_plasma false false false 0 len = BOk b ->
+  len <= MaxDataLength /\ b = AccountBlockBasePlasma + ABByteDataPlasma * len.
+Proof.
+  unfold base_plasma. intros Hl H. destruct (MaxDataLength <? len) eqn:E; [discriminate|].
+  inversion H. split; [lia|]. unfold u64. rewrite Z.mod_small; [lia|].
+  unfold MaxDataLength, ABByteDataPlasma, AccountBlockBasePlasma, two64 in *. lia.
+Qed.
+
+Lemma method_costs_bounded :
+  forallb (fun p => (EmbeddedSimplePlasma <=? p) && (p <=? MaxPlasmaForAccountBlock)) MethodPlasmaVals = true.
+Proof. vm_compute. reflexivity. Qed.
+
+Lemma assoc_z_in k ks vs v : assoc_z k ks vs = Some v -> In v vs.
+Proof.
+  revert vs; induction ks as [|k' ks IH]; intros [|v' vs] H; cbn [assoc_z] in H; try discriminate.
+  destruct (k =? k'); [inversion H; left; reflexivity | right; apply IH; exact H].
+Qed.
+
+Lemma base_plasma_method key len b :
+  base_plasma false true true key len = BOk b -> EmbeddedSimplePlasma <= b <= MaxPlasmaForAccountBlock.
+Proof.
+  unfold base_plasma, method_plasma. destruct (assoc_z key MethodPlasmaKeys MethodPlasmaVals) as [p|] eqn:E; [|discriminate].
+  intros H; inversion H; subst. apply assoc_z_in in E.
+  pose proof method_costs_bounded as Hb. rewrite forallb_forall in Hb. specialize (Hb _ E).
+  apply andb_true_iff in Hb as [H1 H2]. lia.
+Qed.
